@@ -40,7 +40,8 @@
            function right after the binary read / the scan
      FR0/FR1/FR2 = at the very end: the next _MIR_get_temp_item_name of every module is not the name of
            an item of that module and _MIR_new_temp_reg works in every function (ok | clash:<name>)
-     table               (print the insn table of the tree instead: code name nops modes) */
+     table               (print the insn table of the tree instead: code name nops modes)
+   A line "rawscan HEX" instead of a description: MIR_scan_string on that text (RS = ok | ERR:...) */
 #include <stdio.h>
 #include <stdlib.h>
 #include <string.h>
@@ -473,7 +474,29 @@ static size_t n0, n1, n2, n3;
 static buf_t w1, w2;
 static int have_w1, rb_ok, sc_ok;
 
+/* "rawscan HEX": MIR_scan_string on arbitrary (possibly erroneous) text: an error list is fine, a crash is not */
+static void run_rawscan (FILE *out, const char *hex) {
+  size_t n = strlen (hex) / 2;
+  char *text = malloc (n + 1);
+  for (size_t i = 0; i < n; i++) text[i] = (char) (hexval (hex[2 * i]) * 16 + hexval (hex[2 * i + 1]));
+  text[n] = 0;
+  STAGE ("rawscan");
+  c = MIR_init ();
+  MIR_set_error_func (c, err_func);
+  if (setjmp (err_jmp)) {
+    fprintf (out, "|RS=ERR:%s", err_msg);
+  } else {
+    MIR_scan_string (c, text);
+    fprintf (out, "|RS=ok");
+  }
+  STAGE ("done");
+}
+
 static void run_case (FILE *out, char *desc) {
+  if (strncmp (desc, "rawscan ", 8) == 0) {
+    run_rawscan (out, desc + 8);
+    return;
+  }
   t0 = t2 = NULL;
   n0 = n2 = 0;
   have_w1 = rb_ok = sc_ok = 0;
